@@ -56,6 +56,13 @@ func (core *JApiCore) drainCurrentScanner() *jerr.JApiError {
 
 // simply decides which function to call based on lexeme type
 func (core *JApiCore) next(lexeme scanner.Lexeme) *jerr.JApiError {
+	// Everything but a keyword and a closing parenthesis belongs to the directive
+	// which is being read.
+	if core.currentDirective == nil &&
+		lexeme.Type() != scanner.Keyword && lexeme.Type() != scanner.ContextExplicitClosing {
+		return core.japiError(fmt.Sprintf("there is no directive for the %s", lexeme.Type()), lexeme.Begin())
+	}
+
 	switch lexeme.Type() {
 	case scanner.Keyword:
 		return core.processKeyword(lexeme)
